@@ -104,6 +104,9 @@ pub struct Churn {
     pub seed: u64,
     /// a value's repeat follows after this many other connections (0 = immediately)
     pub distance: usize,
+    /// the client's first bytes ride on its SYN (TCP Fast Open) instead of following the handshake
+    #[serde(default)]
+    pub on_syn: bool,
 }
 
 pub struct C11;
@@ -195,7 +198,7 @@ fn median(v: &mut Vec<u64>) -> u64 {
 impl Prop for C11 {
     type Scn = Scn;
     const ID: &'static str = "C11";
-    const ENGINE: &'static str = "netsim";
+    const ENGINE: &'static str = crate::NETSIM_ENGINE;
 
     fn rule() -> &'static str {
         "one evaluation = one delivered segment of a long never-fingerprinting (or contrast) connection, with the counting allocator sampled around it; bounds: live - baseline <= connections x 512 KiB + 1 MiB, live(last tenth) - live(first tenth) <= connections x 512 KiB, allocated per packet <= 4 MiB + 64 x packet length, and the median per-packet allocation of a connection's last tenth <= 2 x its first tenth + 2 MiB; non-trivial = the run delivers >= 500 segments on at least one connection that never yields a fingerprint; distinct = distinct event-log hash"
@@ -256,7 +259,7 @@ impl Prop for C11 {
                 Tier::Quick => r.urange(3000, 6000),
                 Tier::Thorough => r.urange(6000, 40_000),
             };
-            return Scn { cap: *r.pick(&[1usize, 2, 4]), conns: vec![], churn: Some(Churn { n_values, repeats: r.urange(1, 3), value_len: *r.pick(&[200usize, 800, 1500]), seed: r.next_u64(), distance: *r.pick(&[0usize, 1, 7, 100]) }), ..scn };
+            return Scn { cap: *r.pick(&[1usize, 2, 4]), conns: vec![], churn: Some(Churn { n_values, repeats: r.urange(1, 3), value_len: *r.pick(&[200usize, 800, 1500]), seed: r.next_u64(), distance: *r.pick(&[0usize, 1, 7, 100]), on_syn: r.chance(1, 3) }), ..scn };
         }
         scn
     }
@@ -516,11 +519,17 @@ fn run_churn(s: &Scn, ch: &Churn, st: &mut RunStats) -> Result<(), Violation> {
         let h = crate::gen::tcp::Host { profile: ci % 4, ts_hz: 1000, ts_base: 77 + ci as u32, ttl: 64 };
         let client = Endpoint::v4(10, 8 + (ci >> 16) as u8, (ci >> 8) as u8, ci as u8, 1024 + (ci % 60000) as u16);
         let server = Endpoint::v4(10, 4, 0, 1, if s.kind == Kind::Tls { 443 } else { 80 });
-        let mut frames = vec![
-            crate::gen::tcp::syn(&h, client, server, 1000, clock::mono_ns()),
-            crate::gen::tcp::syn_ack(&h, client, server, 5000, 1000, clock::mono_ns(), 1),
-            crate::gen::tcp::data(&h, client, server, 1001, 5001, req.clone(), clock::mono_ns(), 1, pkt::ACK | pkt::PSH),
-        ];
+        let mut frames = if ch.on_syn {
+            let mut syn = crate::gen::tcp::syn(&h, client, server, 1000, clock::mono_ns());
+            syn.payload = req.clone();
+            vec![syn, crate::gen::tcp::syn_ack(&h, client, server, 5000, 1000, clock::mono_ns(), 1)]
+        } else {
+            vec![
+                crate::gen::tcp::syn(&h, client, server, 1000, clock::mono_ns()),
+                crate::gen::tcp::syn_ack(&h, client, server, 5000, 1000, clock::mono_ns(), 1),
+                crate::gen::tcp::data(&h, client, server, 1001, 5001, req.clone(), clock::mono_ns(), 1, pkt::ACK | pkt::PSH),
+            ]
+        };
         if !resp.is_empty() {
             frames.push(crate::gen::tcp::data(&h, server, client, 5001, 1001u32.wrapping_add(req.len() as u32), resp, clock::mono_ns(), 1, pkt::ACK | pkt::PSH));
         }
